@@ -618,25 +618,6 @@ func dashOn(d []float64, off, s float64) (on bool, margin float64) {
 	return true, 0
 }
 
-// checkDashDomain: patterns for which Path.checkDash itself is known to be wrong (C15-checkdash-sign,
-// -negative-offset, -odd-length): non-zero offset, odd length, or two equal halves
-func checkDashDomain(d []float64, off float64) bool {
-	if len(d) == 0 {
-		return false
-	}
-	if off != 0 || len(d)%2 == 1 {
-		return true
-	}
-	h := len(d) / 2
-	same := true
-	for i := 0; i < h; i++ {
-		if d[i] != d[h+i] {
-			same = false
-		}
-	}
-	return same
-}
-
 // backtracks: two consecutive straight pieces of an outline in exactly opposite directions
 func backtracksPts(vs []P2) bool {
 	for i := 2; i < len(vs); i++ {
@@ -787,17 +768,27 @@ func oracle(c *hc.Ctx, d *Doc, svg string, p Parsed) {
 			continue
 		}
 		c.Count("geometry-ok:" + s.N.Tag)
-		// paint
+		// paint; a shape after a closed container is judged under its own kind so that a state leak is
+		// never absorbed by one of the cascade classes
+		pk := func(check string) string {
+			if d.Probes[s.N] {
+				return "state-leak-after-element:" + check
+			}
+			return check + precedence
+		}
+		if d.Probes[s.N] {
+			c.Count("probe-after-container")
+		}
 		rf, rs := l.Style.Fill.Color, l.Style.Stroke.Color
 		if [4]uint8{rf.R, rf.G, rf.B, rf.A} != s.St.Fill {
-			fail(c, "fill"+precedence, fmt.Sprintf("<%s> #%d: fill %v, specified %v", s.N.Tag, i, rf, s.St.Fill), rp("fill", fmt.Sprint(rf)))
+			fail(c, pk("fill"), fmt.Sprintf("<%s> #%d: fill %v, specified %v", s.N.Tag, i, rf, s.St.Fill), rp("fill", fmt.Sprint(rf)))
 		}
 		if l.Style.FillRule != canvas.NonZero && s.St.FillRule == "nonzero" || l.Style.FillRule != canvas.EvenOdd && s.St.FillRule == "evenodd" {
 			fail(c, "fill-rule"+firstFeature(d, "fill-rule"), fmt.Sprintf("<%s> #%d: fill rule %v, specified %s", s.N.Tag, i, l.Style.FillRule, s.St.FillRule), rp("rule", fmt.Sprint(l.Style.FillRule)))
 		}
 		strokes := s.St.Stroke[3] != 0 && s.St.SW > 0
 		if l.Style.HasStroke() != strokes && !(d.Features["dash"] && !l.Style.HasStroke()) {
-			fail(c, "stroke"+precedence, fmt.Sprintf("<%s> #%d: stroked=%v, specified %v", s.N.Tag, i, l.Style.HasStroke(), strokes), rp("stroke", fmt.Sprint(rs)))
+			fail(c, pk("stroke"), fmt.Sprintf("<%s> #%d: stroked=%v, specified %v", s.N.Tag, i, l.Style.HasStroke(), strokes), rp("stroke", fmt.Sprint(rs)))
 			continue
 		}
 		if !strokes {
@@ -805,28 +796,25 @@ func oracle(c *hc.Ctx, d *Doc, svg string, p Parsed) {
 		}
 		c.Count("stroked")
 		if l.Style.HasStroke() && [4]uint8{rs.R, rs.G, rs.B, rs.A} != s.St.Stroke {
-			fail(c, "stroke"+precedence, fmt.Sprintf("<%s> #%d: stroke %v, specified %v", s.N.Tag, i, rs, s.St.Stroke), rp("stroke", fmt.Sprint(rs)))
+			fail(c, pk("stroke"), fmt.Sprintf("<%s> #%d: stroke %v, specified %v", s.N.Tag, i, rs, s.St.Stroke), rp("stroke", fmt.Sprint(rs)))
 		}
 		// the recorded path is in user units up to a translation, so widths and dashes compare directly
 		if !near(l.Style.StrokeWidth, s.St.SW) {
-			fail(c, "stroke-width"+precedence, fmt.Sprintf("<%s> #%d: stroke width %v user units, specified %v", s.N.Tag, i, l.Style.StrokeWidth, s.St.SW), rp("width", l.Style.StrokeWidth))
+			fail(c, pk("stroke-width"), fmt.Sprintf("<%s> #%d: stroke width %v user units, specified %v", s.N.Tag, i, l.Style.StrokeWidth, s.St.SW), rp("width", l.Style.StrokeWidth))
 			continue
 		}
 		if capName(l.Style.StrokeCapper) != s.St.Cap {
-			fail(c, "linecap"+precedence, fmt.Sprintf("<%s> #%d: cap %s, specified %s", s.N.Tag, i, capName(l.Style.StrokeCapper), s.St.Cap), rp("cap", capName(l.Style.StrokeCapper)))
+			fail(c, pk("linecap"), fmt.Sprintf("<%s> #%d: cap %s, specified %s", s.N.Tag, i, capName(l.Style.StrokeCapper), s.St.Cap), rp("cap", capName(l.Style.StrokeCapper)))
 		}
 		jn, lim := joinName(l.Style.StrokeJoiner)
 		if jn != s.St.Join {
-			fail(c, "linejoin"+precedence, fmt.Sprintf("<%s> #%d: join %s, specified %s", s.N.Tag, i, jn, s.St.Join), rp("join", jn))
+			fail(c, pk("linejoin"), fmt.Sprintf("<%s> #%d: join %s, specified %s", s.N.Tag, i, jn, s.St.Join), rp("join", jn))
 		} else if jn == "miter" && !near(lim, s.St.Miter) {
 			fail(c, "miterlimit"+firstFeature(d, "miterlimit"), fmt.Sprintf("<%s> #%d: miter limit %v, specified %v", s.N.Tag, i, lim, s.St.Miter), rp("limit", lim))
 		}
 		// dashes as on/off function of the arc length (user units)
-		if checkDashDomain(s.St.Dash, s.St.DashOff) {
-			// Path.checkDash (called by Context.DrawPath) mis-decides for offsets inside a dash, odd-length
-			// and repeated-halves patterns (known findings C15-checkdash-*): not the importer's doing
-			c.Count("dash-skip:checkdash-domain")
-		} else if len(s.St.Dash) > 0 || len(l.Style.Dashes) > 0 || !l.Style.HasStroke() {
+		// (Path.checkDash was repaired upstream in 0981ba9: every pattern and offset is judged)
+		if len(s.St.Dash) > 0 || len(l.Style.Dashes) > 0 || !l.Style.HasStroke() {
 			c.Count("dashed")
 			length := hc.PolylineLen(s.Subs[0].Pts)
 			sw := l.Style.StrokeWidth
